@@ -101,3 +101,12 @@ func init() {
 		Old: "\t\tctx = tctx\n\t}\n\n\tmethod := r.URL.Path\n", New: "\t\tctx = tctx\n\t\tctx = metadata.NewIncomingContext(r.Context(), md)\n\t}\n\n\tmethod := r.URL.Path\n",
 		Expect: "timeout-kept", Why: "context re-derived from the request after the timeout was installed"})
 }
+
+func init() {
+	control(&Control{ID: "selinsert-exact-with-wildcards", Rule: "SEL-INSERT", File: "larking/mux.go",
+		Old: "\t\t\tcase \"\":\n\t\t\t\tr.exact = append(r.exact, rule)\n", New: "\t\t\tcase \"\":\n\t\t\t\tr.rules = append(r.rules, rule)\n",
+		Expect: "kinds-kept-apart", Why: "exact selectors stored with the wildcard rules"})
+	control(&Control{ID: "selcollect-wildcards-at-the-end", Rule: "SEL-COLLECT", File: "larking/mux.go",
+		Old: "\t\treturn append(rules, r.exact...)\n\t}\n", New: "\t\treturn append(append(rules, r.rules...), r.exact...)\n\t}\n",
+		Expect: "collects-every-level", Why: "wildcard rules returned where the name ends"})
+}
